@@ -71,7 +71,7 @@ pub fn qcow2_alloc_dev_sync<T: Qcow2IoOps>(
     let back_path = header.backing_filename().map(|s| PathBuf::from(s.clone()));
 
     Ok((
-        Qcow2Dev::new(path, header, params, io).expect("new dev failed"),
+        Qcow2Dev::new(path, header, params, io)?,
         back_path,
     ))
 }
@@ -108,7 +108,7 @@ pub async fn qcow2_alloc_dev<T: Qcow2IoOps>(
     let back_path = header.backing_filename().map(|s| PathBuf::from(s.clone()));
 
     Ok((
-        Qcow2Dev::new(path, header, params, io).expect("new dev failed"),
+        Qcow2Dev::new(path, header, params, io)?,
         back_path,
     ))
 }
